@@ -6,6 +6,7 @@ package main
 // (generator_rejected) and raises nothing here.
 
 import (
+	"fmt"
 	"strings"
 
 	"github.com/jub0bs/cors"
@@ -100,26 +101,82 @@ func isIPHost(host string) bool {
 	return strings.HasPrefix(host, "[") || (host != "" && host[0] >= '0' && host[0] <= '9')
 }
 
+const lowerAlnum = "abcdefghijklmnopqrstuvwxyz0123456789"
+
+// randLabel draws a DNS label of letters and digits (no hyphens: positions 3-4
+// and the edges are grey zones), starting with a letter.
+func randLabel(r *R, maxLen int) string {
+	n := r.Range(1, maxLen)
+	b := make([]byte, n)
+	b[0] = lowerAlnum[r.Intn(26)]
+	for i := 1; i < n; i++ {
+		b[i] = lowerAlnum[r.Intn(len(lowerAlnum))]
+	}
+	return string(b)
+}
+
+// randDomain draws a domain of 2..4 random labels (never a public suffix by itself).
+func randDomain(r *R) string {
+	n := r.Range(2, 4)
+	parts := make([]string, n)
+	for i := range parts {
+		parts[i] = randLabel(r, pick(r, []int{1, 3, 8, 8, 20, 63}))
+	}
+	parts[n-1] = pick(r, []string{"test", "com", "org", "example", "dev"})
+	return strings.Join(parts, ".")
+}
+
+// randToken draws a header-name/method token.
+func randToken(r *R, prefix string, maxLen int) string {
+	const chars = "abcdefghijklmnopqrstuvwxyzABCDEFGHIJKLMNOPQRSTUVWXYZ0123456789-_"
+	n := r.Range(1, maxLen)
+	b := make([]byte, n)
+	for i := range b {
+		b[i] = chars[r.Intn(len(chars))]
+	}
+	return prefix + string(b)
+}
+
+func randPort(r *R, scheme string) string {
+	for {
+		p := pick(r, []int{r.Range(1, 65535), r.Range(1, 1024), r.Range(8000, 9000), 65535, 1, 79, 81, 442, 444})
+		if scheme == "http" && p == 80 || scheme == "https" && p == 443 {
+			continue
+		}
+		return ":" + fmt.Sprint(p)
+	}
+}
+
 // genPattern draws one origin pattern and reports whether it needs the
-// insecure-origins and public-suffix tolerations.
+// insecure-origins and public-suffix tolerations. Half of the draws come from
+// the collision vocabulary, the rest is random (labels, ports).
 func genPattern(r *R) (pat string, insecure, psl bool) {
 	scheme := pick(r, vocabSchemes)
 	var host string
 	wild := false
-	switch x := r.Intn(10); {
+	switch x := r.Intn(14); {
 	case x < 5:
 		host = pick(r, vocabDomains)
 	case x < 7:
 		host = pick(r, vocabIPs)
 	case x < 9:
 		host, wild = pick(r, vocabWildBase), true
-	default:
+	case x < 10:
 		host, wild, psl = pick(r, vocabPSL), true, true
+	case x < 12:
+		host = randDomain(r)
+	case x < 13:
+		host, wild = randDomain(r), true
+	default:
+		host = fmt.Sprintf("%d.%d.%d.%d", r.Range(1, 223), r.Intn(256), r.Intn(256), r.Range(1, 254))
 	}
 	if isIPHost(host) && scheme == "https" {
 		scheme = "http" // https with an IP host is rejected (undocumented grey zone); stay clear of it
 	}
 	port := pick(r, vocabPorts)
+	if r.P(0.25) {
+		port = randPort(r, scheme)
+	}
 	if scheme == "http" && port == ":80" || scheme == "https" && port == ":443" {
 		port = ""
 	}
@@ -184,7 +241,11 @@ func genCfg(r *R) Cfg {
 			c.Methods = shuffled(r, append(c.Methods, pick(r, vocabMethods)))
 		}
 	default:
-		c.Methods = shuffled(r, subset(r, vocabMethods, 0.3))
+		c.Methods = subset(r, vocabMethods, 0.3)
+		for r.P(0.2) {
+			c.Methods = append(c.Methods, randToken(r, pick(r, []string{"M", "m", "X", "q"}), 9))
+		}
+		c.Methods = shuffled(r, c.Methods)
 	}
 	switch x := r.Intn(10); {
 	case x < 2:
@@ -197,7 +258,11 @@ func genCfg(r *R) Cfg {
 			c.RequestHeaders = shuffled(r, append(c.RequestHeaders, pick(r, vocabReqHdrs)))
 		}
 	default:
-		c.RequestHeaders = shuffled(r, subset(r, vocabReqHdrs, 0.3))
+		c.RequestHeaders = subset(r, vocabReqHdrs, 0.3)
+		for r.P(0.25) {
+			c.RequestHeaders = append(c.RequestHeaders, randToken(r, pick(r, []string{"X-", "x-", "My", "z"}), pick(r, []int{1, 4, 12, 30, 60})))
+		}
+		c.RequestHeaders = shuffled(r, c.RequestHeaders)
 	}
 	switch x := r.Intn(10); {
 	case x < 4:
@@ -207,10 +272,20 @@ func genCfg(r *R) Cfg {
 			c.ResponseHeaders = shuffled(r, append(c.ResponseHeaders, pick(r, vocabResHdrs)))
 		}
 	default:
-		c.ResponseHeaders = shuffled(r, subset(r, vocabResHdrs, 0.35))
+		c.ResponseHeaders = subset(r, vocabResHdrs, 0.35)
+		for r.P(0.2) {
+			c.ResponseHeaders = append(c.ResponseHeaders, randToken(r, pick(r, []string{"X-", "x-"}), 20))
+		}
+		c.ResponseHeaders = shuffled(r, c.ResponseHeaders)
 	}
 	c.MaxAge = pick(r, vocabMaxAge)
+	if r.P(0.35) {
+		c.MaxAge = pick(r, []int{r.Range(1, 86400), r.Range(1, 100), 7200, 86399, 2, 4, 6})
+	}
 	c.Status = pick(r, vocabStatus)
+	if r.P(0.35) {
+		c.Status = r.Range(200, 299)
+	}
 	return c
 }
 
